@@ -447,3 +447,26 @@ def gate_limit(F, fid, site_bb):
             best = lim
             best_q = org.of_operand(lhs if cr is not None else rhs)
     return best, why, best_q
+
+
+def batch_total_rule(rep, F):
+    """the coin-width bound the batcher packs values against is the total over ALL supplied UTxOs"""
+    import fieldflow as ff
+    rep.rule("TOTAL-all", "the total ADA handed to UtxosStat::new (upper bound of the coin width used when packing values against max_value_size) is accumulated over the whole supplied UTxO list, not over a locally built sub-collection")
+    fid = find_fn(rep, F, "AssetCategorizer::new")
+    if not fid:
+        return
+    fn = F.fns[fid]
+    org = ff.Origins(F, fid)
+    n = 0
+    for c in F.calls(fid):
+        if not (c.to or "").endswith("UtxosStat::new"):
+            continue
+        n += 1
+        rep.inst("TOTAL-all")
+        o = org.of_operand(fn["bbs"][c.bb]["t"][3][0])
+        whole = any(x == "field:utils::TransactionUnspentOutputs.0" for x in o) and any(x.endswith("Value.coin") for x in o)
+        local = sorted(x.split("@")[0][5:] for x in o if x.startswith("call:") and (x.split("@")[0].endswith("Vec::<T>::new") or "with_capacity" in x or x.split("@")[0].endswith("Iterator::collect") or x.split("@")[0].endswith("::push")))
+        if not whole or local:
+            rep.violation("TOTAL-all", "AssetCategorizer::new|%s" % ("sub-collection" if local else "not-from-utxos"), "AssetCategorizer::new hands UtxosStat::new a total ADA that is %s: when the ADA sits in asset-bearing UTxOs the coin is assumed narrower than it will be and packed values exceed max_value_size by the missing coin bytes" % ("accumulated over a locally built collection (%s)" % ", ".join(H_short(l) for l in local) if local else "not accumulated over the coins of the supplied UTxOs"), {})
+    rep.floor("UtxosStat::new calls in AssetCategorizer::new", 1, n)
